@@ -839,3 +839,49 @@ func deepCopied(call *ssa.Call, depth int) ssa.Value {
 	}
 	return call.Common().Args[idx]
 }
+
+// Responsibility is decided the same way by every token-endpoint handler. The
+// handlers of one grant co-operate (for authorization_code: the OAuth2 code
+// handler redeems, the PKCE handler verifies the verifier, the OpenID handler
+// adds the ID token); each decides "is this my request" from the grant_type
+// list. All of them answer true only for ExactOne(grant types, <their grant>):
+// a handler that accepts a list merely containing its grant is responsible for
+// a request its companions declare not to be theirs, and redeems it without
+// their checks.
+func checkCanHandleExact(c *Ctx, rule string) {
+	const role = "responsibility"
+	n := 0
+	for _, fn := range c.Impls(pkgRoot, "TokenEndpointHandler", "CanHandleTokenEndpointRequest") {
+		if !isSubjectPkg(fnPkgPath(fn)) || !c.P.RefsMethod(fn, 1, ".GetGrantTypes") {
+			continue
+		}
+		ex := c.Explore(fn, ExploreConfig{}, "canhandle")
+		if !c.complete(ex, rule, role, fn) {
+			continue
+		}
+		n++
+		ok, m := true, 0
+		var w *Path
+		for _, p := range ex.Paths {
+			if p.Kind != "return" || len(p.Rets) != 1 || p.Rets[0].Key() != tTrue.Key() {
+				continue
+			}
+			m++
+			exact := false
+			for _, f := range p.Facts {
+				if f.Atom.Kind == "B" && f.Pol && f.Atom.A.IsCall(".ExactOne") && len(f.Atom.A.Args) == 2 && f.Atom.A.Args[0].IsCall(".GetGrantTypes") {
+					if _, isC := f.Atom.A.Args[1].StrConst(); isC {
+						exact = true
+					}
+				}
+			}
+			if !exact {
+				ok, w = false, p
+			}
+		}
+		c.Check(ok && m > 0, rule, role, fn, "responsible-for-exactly-one-grant", "CanHandleTokenEndpointRequest answers true only if the request's grant types are exactly the handler's one grant type", "true is returned without ExactOne(grant types, <constant>)", w)
+	}
+	if n < 6 {
+		c.RoleUnmatched(rule, role, fmt.Sprintf("at least 6 grant-type based CanHandleTokenEndpointRequest implementations (found %d)", n))
+	}
+}
